@@ -50,7 +50,10 @@ HInit == /\ \E a \in Modes, p \in Pres : InitWith(W, a, p)
 
 \* one named action per operation kind (TLC reports coverage per action; the driver refuses a run in which one
 \* of them never fired)
-H(A) == Len(hist) < Depth /\ A /\ hist' = Append(hist, last')
+\* what is recorded per operation: the event plus the A-layer's bookkeeping afterwards (compared with the section
+\* objects' `lines` / number of content lines when the behaviour is replayed)
+Obs == last @@ [rows |-> [i \in 1..Len(secs) |-> secs[i].lines], cnt |-> [i \in 1..Len(secs) |-> Len(secs[i].content)]]
+H(A) == Len(hist) < Depth /\ A /\ hist' = Append(hist, Obs')
 HCreate == \E k \in {Len(secs) + 1} : H(k <= MaxSections /\ Create /\ UNCHANGED nextId)
 HWrite1 == \E i \in 1..Len(secs), n \in Lens : H(WriteLine(i, <<Line(nextId, n)>>) /\ nextId' = nextId + 1)
 HWrite2 == \E i \in 1..Len(secs), p \in Pairs :
